@@ -202,7 +202,7 @@ def run_impl(c, d):
         q = os.path.join(d, 'cropz.sgz')
         with SgzCropper(p) as cr:
             quiet(cr.write_cropped_file_by_indexes, q, iline_index_range=(0, len(out['src_il'])), xline_index_range=(0, len(out['src_xl'])),
-                  zslices_index_range=(z0 + 3, nz))
+                  zslices_index_range=(z0 + min(3, nz - z0 - 1), nz))
         out['src_z'] = out['src_z'][z0:]
         out['crop_z0'] = z0
         p = q
